@@ -1,0 +1,16 @@
+//go:build verif
+
+// Contracts for the deductive verifier in /verif (comment-only file; see /verif/DESIGN.md).
+package deletetopics
+
+//@ property C04
+
+// Wire layout per version, from the Kafka protocol definition of this API (field order, types and the versions each field
+// exists in); the encoders and decoders are compiled from the struct tags, so the tags are checked against it.
+//@ wire Request
+//@   layout v0..v3 TopicNames []string, TimeoutMs int32
+//@ wire Response
+//@   layout v0 Responses []ResponseTopic
+//@   layout v1..v3 ThrottleTimeMs int32, Responses []ResponseTopic
+//@ wire ResponseTopic
+//@   layout v0..v3 Name string, ErrorCode int16
